@@ -1,4 +1,8 @@
 """Sidecar contracts (DESIGN.md Appendix A). One module per repository module."""
 def install_all(reg):
-    from . import space_utils
+    from pyvc import sdmodel
+    sdmodel.install(reg)
+    from . import space_utils, deps, succession_diagram
     space_utils.install(reg)
+    deps.install(reg)
+    succession_diagram.install(reg)
